@@ -1015,6 +1015,94 @@ def gen_frame(rng, case, fkw=None):
     case["size"] = _size_for(rng, pseudo + _ix_fields(case["index"]))
 
 
+# --------------------------------------------------------------------------
+# family "regex": frames whose columns are (also) regex columns. Everything
+# dataframe_strategy does per column - unique / nullable flags and the null
+# mask that honours them, dtype conversion, str mapping, fallback filters of
+# checks without strategy, row strategies for frame-level checks - has to be
+# done for the GENERATED column names, not for the keys of the schema
+# --------------------------------------------------------------------------
+FLAG_COMBOS = [(True, True), (True, False), (False, True), (False, False)]
+N_REGEX_CHOICES = [1, 2, 2, 3]
+
+
+def _null_dtype(rng, p=0.8):
+    """a dtype, most of the time one that can hold nulls"""
+    dt = pick_dtype(rng)
+    if rng.random() < p:
+        for _ in range(8):
+            if supports_nulls({"cls": CLASS_OF[dt], "dtype": dt}):
+                break
+            dt = pick_dtype(rng)
+    return dt
+
+
+def _clip_size(rng, size, fields, df_unique=None):
+    uniq = [f for f in fields if f["unique"] or (df_unique and f["name"] in df_unique)]
+    cap = min([f["support"] for f in uniq] or [99])
+    if size is None:
+        return None if cap >= 8 else min(cap, rng.choice([2, 3]))
+    return min(size, cap)
+
+
+def gen_regex_case(rng, j):
+    """frame case with 1-2 regex columns (n_regex_columns 1-3) next to 0-2
+    plain columns. The first regex column takes the j-th combination of
+    (nullable, unique), so every run sees all four equally often; sizes are
+    mostly explicit and >= 2 (the frame strategy only inserts nulls for an
+    explicit size). Variants: frame-level checks (row strategy), frame-level
+    dtype, frame-level unique=[...] on the plain columns, index component"""
+    case = {"family": "sat", "kind": "frame", "focus": "regex",
+            "mode": "example" if rng.random() < 0.15 else "strategy",
+            "n_regex": rng.choice(N_REGEX_CHOICES),
+            "df_checks": [], "df_unique": None, "df_dtype": None}
+    variant = rng.choices(["plain", "df_checks", "df_dtype", "df_unique"], [58, 16, 10, 16])[0]
+    n_rx = rng.choice([1, 1, 1, 2])
+    n_plain = rng.choice([0, 1, 1, 2])
+    if variant == "df_unique":
+        n_plain = max(1, n_plain)
+    ncols = n_rx + n_plain
+    nchk = lambda: rng.choice([0, 0, 1, 1, 2])      # noqa: E731
+    if variant == "df_checks":
+        cls = rng.choices(["int", "float", "str", "dt"], [3, 4, 3, 1])[0]
+        if cls == "int":
+            dts = [rng.choice(["Int64", "Int32", "int64", "Int16"]) for _ in range(ncols)]
+        else:
+            dts = [rng.choice(DTYPES[cls]) for _ in range(ncols)]
+        if cls == "dt":
+            dts = [dts[0]] * ncols
+        fields = [gen_field(rng, dt, name=f"c{i}", n_checks=rng.choice([0, 0, 1]),
+                            allow_flags=i >= n_rx) for i, dt in enumerate(dts)]
+        case["df_checks"] = gen_df_checks(rng, cls, dts, [dec(f["witness"]) for f in fields])
+    elif variant == "df_dtype":
+        dt = _null_dtype(rng)
+        fields = [gen_field(rng, dt, name=f"c{i}", n_checks=nchk(), allow_flags=i >= n_rx)
+                  for i in range(ncols)]
+        case["df_dtype"] = dt
+    else:
+        fields = [gen_field(rng, _null_dtype(rng) if i < n_rx else None, name=f"c{i}",
+                            n_checks=nchk(), allow_flags=i >= n_rx) for i in range(ncols)]
+    for i in range(n_rx):
+        f = fields[i]
+        f["regex"] = True
+        f["name"] = rng.choice(REGEX_NAMES).format(i=i)
+        f["nullable"], f["unique"] = FLAG_COMBOS[j % 4] if i == 0 else rng.choice(FLAG_COMBOS)
+    if variant == "df_unique":
+        names = [f["name"] for f in fields if not f["regex"]]
+        case["df_unique"] = rng.sample(names, rng.randint(1, len(names)))
+    rng.shuffle(fields)         # the regex columns are not always the first ones
+    case["fields"] = fields
+    case["index"] = gen_index_spec(rng) if rng.random() < 0.2 else None
+    size = rng.choice([2, 3, 3, 4, 4, 5, 5, 5, None, 1, 0])
+    case["size"] = _clip_size(rng, size, fields + _ix_fields(case["index"]), case["df_unique"])
+    fix_aggregates(rng, case)
+    if case["mode"] == "example" and (has_custom(case) or any(
+            c["k"].startswith("c_") for c in case["df_checks"])):
+        # example() cannot be given a time limit: builtin checks only
+        case["mode"] = "strategy"
+    return case
+
+
 def gen_df_checks(rng, cls, dts, ws):
     out = []
     n = rng.choice([1, 1, 2])
@@ -1217,15 +1305,16 @@ def build(case):
 # was seen to emit invalid data (so every run visits each of them, whatever
 # the seed), written in the same spec language as the generated cases
 # --------------------------------------------------------------------------
-def _F(dtype, checks=(), nullable=False, unique=False, name=None, witness=None, support=9):
+def _F(dtype, checks=(), nullable=False, unique=False, name=None, witness=None, support=9,
+       regex=False):
     return {"dtype": dtype, "cls": CLASS_OF[dtype], "witness": enc(witness),
             "checks": [{"k": k, "a": {n: enc(v) for n, v in a.items()}} for k, a in checks],
-            "nullable": nullable, "unique": unique, "name": name, "regex": False,
+            "nullable": nullable, "unique": unique, "name": name, "regex": regex,
             "support": support}
 
 
 def _case(kind, fields, size, family="sat", **kw):
-    c = {"family": family, "kind": kind, "mode": "strategy", "n_regex": 1,
+    c = {"family": family, "kind": kind, "mode": "strategy", "n_regex": kw.pop("n_regex", 1),
          "fields": fields, "size": size}
     if kind == "series":
         c["index"] = kw.pop("index", None)
@@ -1296,4 +1385,15 @@ def directed_cases():
                                       ("c_strat", {"fn": "mod", "m": m, "r": 0, "ew": True})],
                             name="a", witness=0)], 2)
          for m in (3, 7)],
+        # regex columns: flags, null masks and dtypes belong to the GENERATED
+        # column names (nullable x unique, next to plain columns, with checks)
+        _case("frame", [_F("float64", nullable=True, unique=True, name=r"m_\d", regex=True,
+                           witness=0.5)], 5, n_regex=2),
+        _case("frame", [_F("int64", unique=True, name="id", witness=1),
+                        _F("str", [chk("str_length", min_value=1, max_value=4)], nullable=True,
+                           unique=True, name="t_[a-c]", regex=True, witness="ab")], 5, n_regex=3),
+        _case("frame", [_F("Int64", [chk("ge", min_value=0)], nullable=True, name="n_(a|b)",
+                           regex=True, witness=1),
+                        _F("datetime64[ns]", nullable=True, unique=True, name=r"d\.x+", regex=True,
+                           witness=pd.Timestamp("2020-01-01"))], 4, n_regex=2),
     ]
